@@ -251,7 +251,11 @@ class CacheSim:
                         elif m in ("update", "extend"):
                             acc = acc | set(const_eval(st.value.args[0]))
                     except (ValueError, TypeError):
-                        return "?"
+                        # a named set (module constant, another local)
+                        more = self._const_set(st.value.args[0], path_nodes, path_nodes.index(n)) if m in ("update", "extend") and st.value.args else "?"
+                        if more in (None, "?"):
+                            return "?"
+                        acc = acc | more
             return acc if acc is not None else "?"
         if isinstance(expr, ast.BinOp) and isinstance(expr.op, (ast.BitOr, ast.Add)):
             a = self._const_set(expr.left, path_nodes, upto)
